@@ -138,6 +138,36 @@ struct FindPrototypeByCallable : public FindPrototypeByCallableFromIndex <0, Pro
 {
 };
 
+// Remove the first N types from a HeterTuple.
+template <int N, typename List, typename Enabled = void>
+struct DropHeterTuple;
+
+template <typename ...Types>
+struct DropHeterTuple <0, HeterTuple<Types...>, void>
+{
+	using Type = HeterTuple<Types...>;
+};
+
+template <int N, typename T, typename ...Types>
+struct DropHeterTuple <N, HeterTuple<T, Types...>, typename std::enable_if<(N > 0)>::type>
+{
+	using Type = typename DropHeterTuple<N - 1, HeterTuple<Types...> >::Type;
+};
+
+// Find the first prototype, at index StartIndex or later in the whole PrototypeList_, that Callable can be called with.
+// FindPrototypeByCallableFromIndex numbers the head of the list it is given with N, so it must be given the remaining
+// part of the list, not the whole list.
+template <int StartIndex, typename PrototypeList_, typename Callable, template <typename> class ArgTransformer = FindPrototypeDefaultArgTransformer>
+struct FindPrototypeByCallableStartingAt : public FindPrototypeByCallableFromIndex <
+		StartIndex,
+		typename DropHeterTuple<StartIndex, PrototypeList_>::Type,
+		Callable,
+		ArgTransformer,
+		HeterTupleSize<PrototypeList_>::value
+	>
+{
+};
+
 template <int N, typename PrototypeList_, typename ...InArgs>
 struct FindPrototypeByArgsFromIndex;
 
